@@ -139,7 +139,7 @@ fn step_insert<const N: usize, const R: usize>(bq: usize, br: usize, f: usize) {
     } else {
         assert!(matches!(res, Ok(true)), "C13 insert of a new class returns Ok(true)");
         let l1 = enc::<N, R>(mask | (1u32 << f));
-        assert!(same::<N>(&qf, &l1), "C13 C01 state after insert is the canonical layout of S + {(q,r)}");
+        assert!(same::<N>(&qf, &l1), "C13 C01 state after insert is the canonical layout of S plus (q,r)");
         assert!(qf.n_elements == popcount(mask) + 1, "C13 len equals number of distinct classes");
     }
 }
